@@ -10,26 +10,26 @@ import Bisquitt.Model.Gateway
 namespace Bisquitt.Gw
 open Bisquitt Gw
 
-variable (Sn : Pkt → Prop) (Mq : MqPkt → Prop)
+variable (Sn : Pkt → Prop) (Mq : MqPkt → Prop) (E : MqPkt → Prop)
 
 /-- what an output may be: a datagram that is the encoding of a permitted packet, a permitted
     MQTT packet, or anything else (end / close / instrumentation) -/
 def OutOk : Out → Prop
   | .sn b => ∃ p, Sn p ∧ b = encode p
-  | .mq p => Mq p
+  | .mq p => Mq p ∨ E p
   | _ => True
 
 /-- `g'` extends the output log of `g` by permitted outputs only -/
 def Emits (g g' : Gw) : Prop :=
-  ∃ new : List (Nat × Out), g'.outs = new ++ g.outs ∧ ∀ x ∈ new, OutOk Sn Mq x.2
+  ∃ new : List (Nat × Out), g'.outs = new ++ g.outs ∧ ∀ x ∈ new, OutOk Sn Mq E x.2
 
-variable {Sn Mq}
+variable {Sn Mq E}
 
-theorem Emits.refl (g : Gw) : Emits Sn Mq g g := ⟨[], rfl, by simp⟩
+theorem Emits.refl (g : Gw) : Emits Sn Mq E g g := ⟨[], rfl, by simp⟩
 
-theorem Emits.of_outs_eq {g g' : Gw} (h : g'.outs = g.outs) : Emits Sn Mq g g' := ⟨[], by simp [h], by simp⟩
+theorem Emits.of_outs_eq {g g' : Gw} (h : g'.outs = g.outs) : Emits Sn Mq E g g' := ⟨[], by simp [h], by simp⟩
 
-theorem Emits.trans {a b c : Gw} (h1 : Emits Sn Mq a b) (h2 : Emits Sn Mq b c) : Emits Sn Mq a c := by
+theorem Emits.trans {a b c : Gw} (h1 : Emits Sn Mq E a b) (h2 : Emits Sn Mq E b c) : Emits Sn Mq E a c := by
   obtain ⟨n1, e1, p1⟩ := h1
   obtain ⟨n2, e2, p2⟩ := h2
   refine ⟨n2 ++ n1, by rw [e2, e1, List.append_assoc], ?_⟩
@@ -38,11 +38,11 @@ theorem Emits.trans {a b c : Gw} (h1 : Emits Sn Mq a b) (h2 : Emits Sn Mq b c) :
   · exact p2 x h
   · exact p1 x h
 
-theorem Emits.emit (g : Gw) (o : Out) (h : OutOk Sn Mq o) : Emits Sn Mq g (g.emit o) :=
+theorem Emits.emit (g : Gw) (o : Out) (h : OutOk Sn Mq E o) : Emits Sn Mq E g (g.emit o) :=
   ⟨[(g.now, o)], rfl, by simpa using h⟩
 
 /-- an `Emits` step followed by a change that does not touch the log -/
-theorem Emits.then_eq {a b c : Gw} (h1 : Emits Sn Mq a b) (h : c.outs = b.outs) : Emits Sn Mq a c :=
+theorem Emits.then_eq {a b c : Gw} (h1 : Emits Sn Mq E a b) (h : c.outs = b.outs) : Emits Sn Mq E a c :=
   h1.trans (Emits.of_outs_eq h)
 
 /-! ### functions that never touch the output log -/
@@ -67,21 +67,25 @@ theorem Emits.then_eq {a b c : Gw} (h1 : Emits Sn Mq a b) (h : c.outs = b.outs) 
     · split <;> rfl
 
 /-! ### the two senders -/
-theorem snSend_emits (g : Gw) (p : Pkt) (tx : Option Nat) (h : Sn p) : Emits Sn Mq g (g.snSend p tx) := by
+theorem snSend_emits (g : Gw) (p : Pkt) (tx : Option Nat) (h : Sn p) : Emits Sn Mq E g (g.snSend p tx) := by
   unfold snSend
   split
   · exact Emits.of_outs_eq rfl
   · exact Emits.emit g _ ⟨p, h, rfl⟩
 
-theorem mqttSend_emits (g : Gw) (p : MqPkt) (h : Mq p) : Emits Sn Mq g (g.mqttSend p) :=
-  Emits.emit g _ h
+theorem mqttSend_emits (g : Gw) (p : MqPkt) (h : Mq p) : Emits Sn Mq E g (g.mqttSend p) :=
+  Emits.emit g _ (Or.inl h)
+
+/-- the extra permission `E` (used for the one site that may send an MQTT DISCONNECT) -/
+theorem mqttSend_emits_extra (g : Gw) (p : MqPkt) (h : E p) : Emits Sn Mq E g (g.mqttSend p) :=
+  Emits.emit g _ (Or.inr h)
 
 end Bisquitt.Gw
 
 namespace Bisquitt.Gw
 open Bisquitt Gw
 
-variable (Sn : Pkt → Prop) (Mq : MqPkt → Prop)
+variable (Sn : Pkt → Prop) (Mq : MqPkt → Prop) (E : MqPkt → Prop)
 
 /-- a CONNECT under construction is a valid MQTT CONNECT as far as the will is concerned -/
 def ConnOk (f : ConnFields) : Prop := f.will = !f.wt.isEmpty ∧ f.wq ≤ 2
@@ -102,7 +106,7 @@ def WF (g : Gw) : Prop := (∀ it ∈ g.buffer, Sn it.pkt) ∧ (∀ t ∈ g.txs,
 
 /-- one model function call: from a well-formed state it extends the log by permitted outputs
     only and ends in a well-formed state -/
-def Step (g g' : Gw) : Prop := WF Sn Mq g → Emits Sn Mq g g' ∧ WF Sn Mq g'
+def Step (g g' : Gw) : Prop := WF Sn Mq g → Emits Sn Mq E g g' ∧ WF Sn Mq g'
 
 /-- the emission sites of the model and what each may send -/
 structure Sites : Prop where
@@ -133,21 +137,21 @@ structure Sites : Prop where
   mqPubcomp : ∀ mid, Mq (.pubcomp mid)
   mqPingreq : Mq .pingreq
 
-variable {Sn Mq}
+variable {Sn Mq E}
 
-theorem Step.refl (g : Gw) : Step Sn Mq g g := fun w => ⟨Emits.refl g, w⟩
+theorem Step.refl (g : Gw) : Step Sn Mq E g g := fun w => ⟨Emits.refl g, w⟩
 
-theorem Step.trans {a b c : Gw} (h1 : Step Sn Mq a b) (h2 : Step Sn Mq b c) : Step Sn Mq a c := fun w =>
+theorem Step.trans {a b c : Gw} (h1 : Step Sn Mq E a b) (h2 : Step Sn Mq E b c) : Step Sn Mq E a c := fun w =>
   let ⟨e1, w1⟩ := h1 w
   let ⟨e2, w2⟩ := h2 w1
   ⟨e1.trans e2, w2⟩
 
 /-- a change that touches neither the log nor the parked packets -/
 theorem Step.of_eq {g g' : Gw} (ho : g'.outs = g.outs) (hb : g'.buffer = g.buffer) (ht : g'.txs = g.txs) :
-    Step Sn Mq g g' := fun w =>
+    Step Sn Mq E g g' := fun w =>
   ⟨Emits.of_outs_eq ho, ⟨by rw [hb]; exact w.1, by rw [ht]; exact w.2⟩⟩
 
-theorem Step.snSend (g : Gw) (p : Pkt) (tx : Option Nat) (h : Sn p) : Step Sn Mq g (g.snSend p tx) := by
+theorem Step.snSend (g : Gw) (p : Pkt) (tx : Option Nat) (h : Sn p) : Step Sn Mq E g (g.snSend p tx) := by
   intro w
   refine ⟨snSend_emits g p tx h, ?_⟩
   unfold Gw.snSend
@@ -159,13 +163,16 @@ theorem Step.snSend (g : Gw) (p : Pkt) (tx : Option Nat) (h : Sn p) : Step Sn Mq
     · simp at h1; subst h1; exact h
   · exact w
 
-theorem Step.mqttSend (g : Gw) (p : MqPkt) (h : Mq p) : Step Sn Mq g (g.mqttSend p) := fun w =>
+theorem Step.mqttSend (g : Gw) (p : MqPkt) (h : Mq p) : Step Sn Mq E g (g.mqttSend p) := fun w =>
   ⟨mqttSend_emits g p h, w⟩
+
+theorem Step.mqttSendExtra (g : Gw) (p : MqPkt) (h : E p) : Step Sn Mq E g (g.mqttSend p) := fun w =>
+  ⟨mqttSend_emits_extra g p h, w⟩
 
 theorem getTx_mem {g : Gw} {id : Nat} {t : Tx} (h : g.getTx id = some t) : t ∈ g.txs :=
   List.mem_of_find?_eq_some h
 
-theorem Step.setTx (g : Gw) (t : Tx) (h : WF Sn Mq g → KindOk Sn Mq t.kind) : Step Sn Mq g (g.setTx t) := by
+theorem Step.setTx (g : Gw) (t : Tx) (h : WF Sn Mq g → KindOk Sn Mq t.kind) : Step Sn Mq E g (g.setTx t) := by
   intro w
   refine ⟨Emits.of_outs_eq rfl, ⟨w.1, ?_⟩⟩
   intro x hx
@@ -176,7 +183,7 @@ theorem Step.setTx (g : Gw) (t : Tx) (h : WF Sn Mq g → KindOk Sn Mq t.kind) : 
   · exact w.2 y hy
 
 theorem Step.newTx (g : Gw) (k : TxKind) (key : TxKey) (tm : Option Nat) (h : WF Sn Mq g → KindOk Sn Mq k) :
-    Step Sn Mq g (g.newTx k key tm).2 := by
+    Step Sn Mq E g (g.newTx k key tm).2 := by
   intro w
   refine ⟨Emits.of_outs_eq rfl, ⟨w.1, ?_⟩⟩
   intro x hx
@@ -185,10 +192,10 @@ theorem Step.newTx (g : Gw) (k : TxKind) (key : TxKey) (tm : Option Nat) (h : WF
   · exact w.2 x hx
   · exact h w
 
-theorem Step.runFinally (g : Gw) (t : Tx) : Step Sn Mq g (g.runFinally t) := by
+theorem Step.runFinally (g : Gw) (t : Tx) : Step Sn Mq E g (g.runFinally t) := by
   unfold Gw.runFinally; split <;> exact Step.of_eq rfl rfl rfl
 
-theorem Step.finishTx (g : Gw) (id : Nat) : Step Sn Mq g (g.finishTx id) := by
+theorem Step.finishTx (g : Gw) (id : Nat) : Step Sn Mq E g (g.finishTx id) := by
   unfold Gw.finishTx
   split
   · rename_i t ht
@@ -198,12 +205,12 @@ theorem Step.finishTx (g : Gw) (id : Nat) : Step Sn Mq g (g.finishTx id) := by
         (Step.runFinally _ t)
   · exact Step.refl g
 
-theorem Step.fail (g : Gw) (c : EndCls) : Step Sn Mq g (g.fail c) := by
+theorem Step.fail (g : Gw) (c : EndCls) : Step Sn Mq E g (g.fail c) := by
   unfold Gw.fail; split <;> first | exact Step.refl g | exact Step.of_eq rfl rfl rfl
 
 /-- sending a list of permitted packets -/
 theorem Step.sendAll (its : List BufItem) : ∀ (g : Gw), (∀ it ∈ its, Sn it.pkt) →
-    Step Sn Mq g (its.foldl (fun acc it => acc.snSend it.pkt it.tx) g) := by
+    Step Sn Mq E g (its.foldl (fun acc it => acc.snSend it.pkt it.tx) g) := by
   induction its with
   | nil => intro g _; exact Step.refl g
   | cons it rest ih =>
@@ -211,11 +218,11 @@ theorem Step.sendAll (its : List BufItem) : ∀ (g : Gw), (∀ it ∈ its, Sn it
     simp only [List.foldl_cons]
     exact Step.trans (Step.snSend g it.pkt it.tx (h it (by simp))) (ih _ (fun x hx => h x (by simp [hx])))
 
-theorem Step.flushBuffer (g : Gw) : Step Sn Mq g g.flushBuffer := by
+theorem Step.flushBuffer (g : Gw) : Step Sn Mq E g g.flushBuffer := by
   intro w
   unfold Gw.flushBuffer
-  have h0 : Step Sn Mq g { g with buffer := [] } := fun w => ⟨Emits.of_outs_eq rfl, ⟨by simp, w.2⟩⟩
-  have h1 := Step.sendAll (Sn := Sn) (Mq := Mq) g.buffer { g with buffer := [] } w.1
+  have h0 : Step Sn Mq E g { g with buffer := [] } := fun w => ⟨Emits.of_outs_eq rfl, ⟨by simp, w.2⟩⟩
+  have h1 := Step.sendAll (Sn := Sn) (Mq := Mq) (E := E) g.buffer { g with buffer := [] } w.1
   obtain ⟨e, w'⟩ := (Step.trans h0 h1) w
   exact ⟨Emits.then_eq e rfl, ⟨by simp, w'.2⟩⟩
 
